@@ -26,7 +26,8 @@ type lfile struct {
 type ltor struct {
 	name     string
 	single   bool
-	magnet   bool // metadata incomplete: only a display name is known
+	magnet   bool    // metadata incomplete: only a display name is known
+	legacy   int     // see genLegacy
 	viaDN    *string // added from a magnet link with this display name; the metadata has completed since
 	files    []lfile
 	length   int64 // single
@@ -146,9 +147,11 @@ func genTorrent(t *rapid.T, lb string, names *[]string) *ltor {
 		lt.single = true
 		lt.length = max(1, genLen(t, lb+".length"))
 		lt.genVia(t, lb, names)
+		lt.genLegacy(t, lb)
 		return lt
 	}
 	lt.genVia(t, lb, names)
+	lt.genLegacy(t, lb)
 	budget := rapid.SampledFrom([]int{1, 2, 3, 4, 5, 6, 8, 10, 12, 15}).Draw(t, lb+".nfiles")
 	var pool []string
 	for len(lt.files) == 0 {
@@ -179,8 +182,16 @@ func (lt *ltor) genVia(t *rapid.T, lb string, names *[]string) {
 	lt.viaDN = &dn
 }
 
+// genLegacy: in one torrent out of four the real names travel in path.utf-8 /
+// name.utf-8, next to other spellings in path / name (bit 0: paths, bit 1: name).
+func (lt *ltor) genLegacy(t *rapid.T, lb string) {
+	if rapid.IntRange(0, 3).Draw(t, lb+".legacyKeys") == 0 {
+		lt.legacy = rapid.IntRange(1, 3).Draw(t, lb+".legacy")
+	}
+}
+
 func (lt *ltor) spec() *webfix.Spec {
-	s := &webfix.Spec{Name: lt.name, PieceLen: lt.pieceLen, Seed: lt.seed}
+	s := &webfix.Spec{Name: lt.name, PieceLen: lt.pieceLen, Seed: lt.seed, LegacyPaths: lt.legacy&1 != 0, LegacyName: lt.legacy&2 != 0}
 	if lt.single {
 		s.Length = lt.length
 		return s
